@@ -329,6 +329,17 @@ class Interp:
                 return [(True, [], "return", dict(self.mstate))]
             if nm == "unwrap_or" and len(args) == 2:
                 return [(inner[0] if hit else args[1], [], "return", dict(self.mstate))]
+        if f.get("key") in ("bool::then_some", "bool::then") and len(args) == 2 and a0 is TOP:
+            # undecided condition: both outcomes
+            res = [(NONE, [], "return", dict(self.mstate))]
+            if f.get("key") == "bool::then_some":
+                res.append((some(args[1]), [], "return", dict(self.mstate)))
+            else:
+                outs = self.call_value(args[1], [])
+                if outs is None:
+                    return None
+                res += [(some(r) if e == "return" else r, ev, e, ms) for (r, ev, e, ms) in outs]
+            return res
         if f.get("key") == "bool::then_some" and len(args) == 2 and isinstance(a0, bool):
             return [(some(args[1]) if a0 else NONE, [], "return", dict(self.mstate))]
         if f.get("key") == "bool::then" and len(args) == 2 and isinstance(a0, bool):
@@ -395,10 +406,16 @@ class Interp:
                     return TOP
             elif e[0] == "ci" and isinstance(v, Agg) and v.kind in ("array", "slice", "tuple"):
                 idx = (len(v.fields) - e[1]) if e[2] else e[1]
+                was_slice = v.kind == "slice"
                 v = v.fields[idx] if 0 <= idx < len(v.fields) else TOP
+                if was_slice and isinstance(v, HRef):     # a modelled sub-slice holds its elements by reference: the place IS the element
+                    v = self._project(env, v, ["*"])
             elif e[0] == "i" and isinstance(v, Agg) and v.kind in ("array", "slice"):
                 idx = env.get(e[1], TOP)
+                was_slice = v.kind == "slice"
                 v = v.fields[idx] if isinstance(idx, int) and not isinstance(idx, bool) and 0 <= idx < len(v.fields) else TOP
+                if was_slice and isinstance(v, HRef):
+                    v = self._project(env, v, ["*"])
             elif e[0] in ("i", "ci", "sub"):
                 if isinstance(v, Sym) and "[]" in v.fields:
                     v = v.fields["[]"]
@@ -440,6 +457,11 @@ class Interp:
             return self._store(env, base, proj[1:], val)
         if isinstance(e, list) and e[0] == "d":
             return self._store(env, base, proj[1:], val)
+        if isinstance(e, list) and e[0] in ("i", "ci") and isinstance(base, Agg) and base.kind == "slice":
+            idx = env.get(e[1], TOP) if e[0] == "i" else ((len(base.fields) - e[1]) if e[2] else e[1])
+            if isinstance(idx, int) and not isinstance(idx, bool) and 0 <= idx < len(base.fields) and isinstance(base.fields[idx], HRef):
+                self._store(env, base.fields[idx], ["*"] + list(proj[1:]), val)
+                return base
         if isinstance(e, list) and e[0] in ("i", "ci") and hasattr(base, "vid") and not isinstance(base, HRef):
             h = dict(self.mstate.get("heap", {}))
             items = list(h.get(base.vid, ()))
@@ -556,6 +578,11 @@ class Interp:
                 while isinstance(base, Ref) and hops < 4:
                     base = self.read_ref(env, base)
                     hops += 1
+                if isinstance(base, Agg) and base.kind == "slice":
+                    e = p[1][-1]
+                    idx = env.get(e[1], TOP) if e[0] == "i" else ((len(base.fields) - e[1]) if e[2] else e[1])
+                    if isinstance(idx, int) and not isinstance(idx, bool) and 0 <= idx < len(base.fields) and isinstance(base.fields[idx], HRef):
+                        return base.fields[idx]
                 if hasattr(base, "vid") and not isinstance(base, HRef):
                     items = self.mstate.get("heap", {}).get(base.vid, ())
                     lo_ = getattr(base, "lo", None) or 0
@@ -1097,6 +1124,26 @@ def std_oracle(interp, env, f, args, t, bb, path):
                     return x ** deref(args[1])
                 except Exception:
                     return TOP
+            if name == "recip":
+                return (1.0 / x) if x != 0 else math.copysign(math.inf, x)
+            if name in ("ln", "log2", "log10"):
+                if x < 0:
+                    return math.nan
+                if x == 0:
+                    return -math.inf
+                return {"ln": math.log, "log2": math.log2, "log10": math.log10}[name](x) if x != math.inf else math.inf
+            if name in ("sin", "cos", "tan", "tanh", "atan") and abs(x) != math.inf:
+                return getattr(math, name)(x)
+            if name == "signum":
+                return math.nan if x != x else math.copysign(1.0, x)
+            if name == "trunc":
+                return float(math.trunc(x)) if abs(x) != math.inf else x
+            if name == "round":
+                return float(math.floor(abs(x) + 0.5)) * math.copysign(1.0, x) if abs(x) != math.inf else x
+            if name == "mul_add" and len(args) == 3 and all(isinstance(deref(z), (int, float)) for z in args[1:]):
+                return x * float(deref(args[1])) + float(deref(args[2]))
+            if name == "copysign" and len(args) == 2 and isinstance(deref(args[1]), (int, float)):
+                return math.copysign(x, float(deref(args[1])))
             if name == "sqrt":
                 return x ** 0.5 if x >= 0 else math.nan
             if name == "exp":
